@@ -25,7 +25,7 @@ def rel_path(f, g):
     return "sub/" + base
 
 
-def render(cat, f, content):
+def render(cat, f, content, star=None):
     out = ["; file %d" % f]
     for d in sorted(content["decl"]):
         dd = cat["decl"][d - 1]
@@ -36,6 +36,10 @@ def render(cat, f, content):
             if dd["format"]:
                 out.append("  format " + dd["format"])
     for g in sorted(content["incl"]):
+        if g == star:
+            # Star: the pattern that matches a.journal and b.journal as far as they exist
+            out.append("include " + ("../" if f == 4 else "") + "[ab].journal")
+            continue
         out.append("include " + rel_path(f, g))
     for t in content["txs"]:
         tx = cat["tx"][t - 1]
@@ -62,8 +66,9 @@ def mc_module(n, incl, txs, decl):
             % (incl_s, txs_s, decl_s))
 
 
-def cfg(n, maxops, repair=True, initall=True):
-    return ("CONSTANTS N = %d  MaxOps = %d  TemplateRepair = %s  InitAll = " + ("TRUE" if initall else "FALSE") + "\n InclMenu <- MInclMenu\n TxsMenu <- MTxsMenu\n DeclMenu <- MDeclMenu\n"
+def cfg(n, maxops, repair=True, initall=True, globrepair=True, absent=False):
+    return ("CONSTANTS N = %d  MaxOps = %d  TemplateRepair = %s  InitAll = " + ("TRUE" if initall else "FALSE") + " GlobRepair = " + ("TRUE" if globrepair else "FALSE")
+            + " Absent = " + ("TRUE" if absent else "FALSE") + "\n InclMenu <- MInclMenu\n TxsMenu <- MTxsMenu\n DeclMenu <- MDeclMenu\n"
             "INIT Init\nNEXT Next\nINVARIANTS MembersOK TplOK Emit\nCHECK_DEADLOCK FALSE\n") % (n, maxops, "TRUE" if repair else "FALSE")
 
 
@@ -92,6 +97,20 @@ def gen(run):
         if not thorough and len(ex) > cap:
             ex = run.rng.sample(ex, cap)
         hs += [(fam, x) for x in ex]
+    # files that do not exist yet under a pattern: `include [ab].journal` in any file, a.journal / b.journal absent or present,
+    # every single update (an update of an absent file creates it).  The mechanism that freezes what a pattern expanded to
+    # (GlobRepair = FALSE) must violate MembersOK, or the family would be vacuous.
+    gmenu = [[], [4], [3, 4]]
+    gmod = {"MCWorkspace": mc_module(3, gmenu, TXS_SMALL[:2], [[]])}
+    bad = run.tlc("MCWorkspace", cfg(3, 1, globrepair=False, absent=True).replace(" Emit", ""), workers=4, allow_violation=True, collect_json=False, extra_modules=gmod)
+    if bad.ok or "Invariant MembersOK is violated" not in bad.stdout:
+        vf.die_tooling("Workspace.tla: freezing the expansion of a pattern no longer violates MembersOK — the model is vacuous")
+    r = run.tlc("MCWorkspace", cfg(3, 1 if not thorough else 2, absent=True), workers=8, timeout=2400, extra_modules=gmod)
+    ex = r.json
+    cap = 1500 if not thorough else 40000
+    if len(ex) > cap:
+        ex = run.rng.sample(ex, cap)
+    hs += [("glob3_1", x) for x in ex]
     if thorough:
         # declarations and a fourth transaction list: sampled from the pool of 4 x 4 x 2 = 32 contents per file
         # (32^3 x 96 = 3.1 million histories) by simulation, one update each
@@ -126,8 +145,8 @@ def to_harness(idx, case):
     init = h[0]["contents"]
     n = len(init)
     NAMES[1] = root_name(idx, case)
-    files = {NAMES[f]: render(cat, f, init[f - 1]) for f in range(1, n + 1)}
-    ops = [{"file": NAMES[st["file"]], "content": render(cat, st["file"], st["content"])} for st in h[1:]]
+    files = {NAMES[f]: render(cat, f, init[f - 1], n + 1) for f in range(1, n + 1) if not init[f - 1].get("absent")}
+    ops = [{"file": NAMES[st["file"]], "content": render(cat, st["file"], st["content"], n + 1)} for st in h[1:]]
     return {"id": str(idx), "files": files, "ops": ops}
 
 
